@@ -34,21 +34,27 @@ def np_normalized(X, Y, D, eps=1e-5):
     return out.mean()
 
 
-def data(D, ks, T, seed=0, sp=None, equal_c=False):
+def data(D, ks, T, seed=0, sp=None, equal_c=False, worst=False):
     rng = np.random.default_rng(seed)
     sp = sp or [3, 4, 2][:D]
     X, Y = {}, {}
     for i, k in enumerate(ks):
         c = (2 if equal_c else 1 + (i % 2)) * T
-        shp = (2, c) + tuple(sp) + (D,) * k[0]
+        shp = (3 if worst else 2, c) + tuple(sp) + (D,) * k[0]
         X[k] = rng.integers(-4, 5, size=shp).astype(np.float64)
         Y[k] = rng.integers(-4, 5, size=shp).astype(np.float64)
+        if worst:
+            # three entries: entry 0 is worst at step 0 only, entry 1 at step 1 only, entry 2 is worst in TOTAL but at no single step
+            amp = np.zeros((3, T))
+            amp[0, 0], amp[1, 1 % T], amp[2, :] = 3.0, 3.0, 2.5
+            step = np.arange(c) % T                 # channel index = field * T + step
+            X[k] = Y[k] + amp[:, step].reshape((3, c) + (1,) * (len(shp) - 2))
     return X, Y
 
 
-def one(fn, D, kx, ky, reduce, T=2, via_x="ctor", via_y="ctor", g=None, equal_c=False):
+def one(fn, D, kx, ky, reduce, T=2, via_x="ctor", via_y="ctor", g=None, equal_c=False, worst=False):
     ks = sorted(set(kx))
-    X, Y = data(D, ks, T if fn == "timestep" else 1, equal_c=equal_c)
+    X, Y = data(D, ks, T if fn == "timestep" else 1, equal_c=equal_c, worst=worst and fn == "timestep")
     x, y = make_mi(X, kx, D, True, via_x), make_mi(Y, ky, D, True, via_y)
     call = f"{fn} D={D} keys_pred={kx} keys_target={ky} reduce={reduce} via=({via_x},{via_y}) g={'id' if g is None else g.tolist()}"
     if g is not None:
@@ -84,6 +90,15 @@ def replay(req):
 
 def search(req):
     for eqc, via in itertools.product([False, True], ["ctor", "jit"]):
+        for worst in ([True, False] if req.get("reduce") == "max" else [False]):
+            d, call = one(req["fn"], req["D"], keys(req["keys_pred"]), keys(req["keys_target"]), req.get("reduce"), via_y=via, equal_c=eqc, worst=worst)
+            if d is not None:
+                return {"ok": True, "confirmed": True, "detail": d, "call": call + (" [entries worst at different steps]" if worst else "")}
+    return {"ok": True, "confirmed": False}
+
+
+def _search_old(req):
+    for eqc, via in itertools.product([False, True], ["ctor", "jit"]):
         d, call = one(req["fn"], req["D"], keys(req["keys_pred"]), keys(req["keys_target"]), req.get("reduce"), via_y=via, equal_c=eqc)
         if d is not None:
             return {"ok": True, "confirmed": True, "detail": d, "call": call}
@@ -102,7 +117,7 @@ def standin(req):
                     continue
                 for fn, reduce in [("smse", "mean"), ("smse", None), ("timestep", "mean"), ("timestep", None), ("timestep", "max"), ("normalized", "mean")]:
                     for vx, vy in [("ctor", "ctor"), ("jit", "ctor"), ("ctor", "jit")]:
-                        d, call = one(fn, D, list(kx), list(ky), reduce, via_x=vx, via_y=vy, equal_c=True)
+                        d, call = one(fn, D, list(kx), list(ky), reduce, via_x=vx, via_y=vy, equal_c=True, worst=(reduce == "max"))
                         n += 1
                         if d is not None:
                             fails.append({"name": call, "detail": d, "request": dict(scenario="loss", fn=fn, D=D, keys_pred=list(kx), keys_target=list(ky), reduce=reduce)})
